@@ -16,6 +16,7 @@ EXPLANATION = ('(R18.1) the per-joint sampler (found by role inside Constraints:
 NOT_DECIDED = 'distribution quality; behaviour of rand itself (assumed to return a value in [lo, hi)); exactness within one cell width of the arc ends'
 ASSUMPTIONS = ['rand::Rng::gen_range(lo..hi) returns a value in [lo, hi) and panics iff lo >= hi']
 SPLITS = 8
+FILL = (0.25, 1.0)        # (from, to) of the slots that are not under test when random_angles is interpreted as a whole
 
 
 class EmptyRange(Exception):
@@ -31,8 +32,11 @@ def h_gen_range(I, st, a, t, b):
     lo, hi = r['start'], r['end']
     if not (isinstance(lo, Iv) and isinstance(hi, Iv)):
         raise absint.Unsupported('gen_range bounds')
+    if lo.is_point() and hi.is_point() and lo.lo == 0.0 and hi.lo == FILL[1] - FILL[0]:
+        return Iv(0.0, hi.lo)            # a filler slot of the whole-function mode: one abstract value, no fork
     c = absint.iv_cmp('Lt', lo, hi)
-    I.gen_checks.append(c)
+    if hasattr(I, 'gen_checks'):
+        I.gen_checks.append(c)
     if c is False:
         raise EmptyRange('gen_range(%r..%r) is empty for the whole cell' % (lo, hi))
     L, H = lo.lo, hi.hi
@@ -78,11 +82,15 @@ def run(ctx):
     ctx.rule('R18.3', 'slot i of the returned vector is sampled from (from[i], to[i])')
     ra, cands = find_sampler(ctx)
     loop_form = len(cands) == 1
-    ctx.require((len(cands) >= 6 or loop_form) and len({c[2].path for c in cands}) == 1,
-                'calls of one per-joint sampler fn(f64,f64)->f64 in random_angles (six, or one inside a loop over the joints)')
+    whole = not ((len(cands) >= 6 or loop_form) and len({c[2].path for c in cands}) == 1)
+    ctx.rule('R18.4', 'constants of the sampler that stand for pi or 2*pi are exact')
+    if whole:
+        # no separate fn(f64, f64) -> f64 called once per joint (the draw may sit in a closure, a generic helper, an
+        # array::from_fn generator): random_angles is interpreted as a whole, one slot under test at a time
+        _whole_function(ctx, prog, ra)
+        return
     sampler = cands[0][2]
     ctx.fn(sampler)
-    ctx.rule('R18.4', 'constants of the sampler that stand for pi or 2*pi are exact')
     util.pi_constants(ctx, 'R18.4', [sampler])
     # ---- R18.3 glue
     ret = strip(ra.return_term())
@@ -262,6 +270,137 @@ def run(ctx):
         ctx.nontrivial.add(('R18.1', 'cellgroup%d' % i))
     if nviol > 15:
         ctx.note('%d violating cells in total; first 15 reported' % nviol)
+
+
+class _Slot:
+    def __init__(self, ret, o):
+        self.ret = ret
+        self.cmp_forked = getattr(o, 'cmp_forked', False)
+
+
+def _whole_function(ctx, prog, ra):
+    """R18.1 / R18.2 / R18.3 by interpreting Constraints::random_angles itself: slot k gets the (from, to) cell under test, the
+    other slots a fixed plain range, and slot k of every abstract result must lie on the arc of that cell."""
+    ctx.fn(ra)
+    bodies = [prog.bodies[p] for p in prog.reachable_bodies([ra.path]) if p.startswith('constraints::')]
+    for bb in bodies:
+        ctx.fn(bb)
+    util.pi_constants(ctx, 'R18.4', bodies)
+    fields = [f['name'] for f in prog.adts['constraints::Constraints']['variants'][0]['fields']]
+
+    def run_slot(k, F, T):
+        frm = [Iv(FILL[0])] * 6
+        to = [Iv(FILL[1])] * 6
+        frm[k], to[k] = Iv(*F), Iv(*T)
+        me = {'#adt': 'constraints::Constraints'}
+        for f in fields:
+            me[f] = tuple(frm) if f == 'from' else tuple(to) if f == 'to' else (Iv(0.0) if f == 'sorting_weight' else tuple([absint.TOP] * 6))
+        I = Interp(prog, HANDLERS, fuel=200000, max_paths=4096)
+        I.gen_checks = []
+        outs = I.run(ra.path, [('refval', me, ())])
+        res = []
+        for o in outs:
+            r = o.ret
+            if not (isinstance(r, (tuple, list)) and len(r) == 6):
+                raise absint.Unsupported('random_angles returned %r' % (r,))
+            res.append(_Slot(r[k], o))
+        return I, res
+
+    def on_arc(r, F, span_hi):
+        inside = False
+        disjoint = True
+        for n in range(-4, 5):
+            lo, hi = r.lo + n * TWO_PI, r.hi + n * TWO_PI
+            if lo >= F[0] - 1e-9 and hi <= F[1] + span_hi + 1e-9:
+                inside = True
+            if not (hi < F[0] - 1e-9 or lo > F[1] + span_hi + 1e-9):
+                disjoint = False
+        if span_hi >= TWO_PI:
+            inside, disjoint = True, False
+        return inside, disjoint
+    deg = math.pi / 180
+    w = (5.0 if ctx.tier == 'thorough' else 15.0) * deg
+    cells = grid(-2 * math.pi, 2 * math.pi, w)
+    holds = fails = und = empties = 0
+    nviol = 0
+    for k in range(6):
+        # slot 0 sees the whole grid, the other slots a diagonal sample of it (a slot fed from another joint's limits fails on any cell)
+        pairs = [(F, T) for F in cells for T in cells] if k == 0 else [(cells[(7 * i + k) % len(cells)], cells[(11 * i + 3 * k + 5) % len(cells)]) for i in range(40)]
+        for F, T in pairs:
+            hull = arc_hull(F, T)
+            if hull is None or hull[2] < w:
+                continue
+            key = 'slot%d/from[%.4f,%.4f]/to[%.4f,%.4f]' % ((k,) + F + T)
+            try:
+                I, outs = run_slot(k, F, T)
+            except EmptyRange as e:
+                empties += 1
+                nviol += 1
+                if nviol <= 15:
+                    ctx.violation('R18.2', key, ra.where(0), ra.path, 'the arc has positive width for every (from,to) of the cell, yet %s: the call panics' % e)
+                continue
+            except absint.Undecided:
+                und += 1
+                continue
+            except absint.Unsupported as e:
+                raise MachineryError('random_angles could not be interpreted: %s' % e)
+            all_ok = True
+            bad = None
+            for o in outs:
+                if not isinstance(o.ret, Iv):
+                    all_ok = False
+                    continue
+                inside, disjoint = on_arc(o.ret, F, hull[3])
+                if not inside:
+                    all_ok = False
+                if disjoint and _definite_path(I, o):
+                    bad = o.ret
+            if bad is not None:
+                fails += 1
+                nviol += 1
+                if nviol <= 15:
+                    ctx.violation('R18.1' if k == 0 else 'R18.3', key, ra.where(0), ra.path,
+                                  'slot %d can receive a value in %r, off the arc of its own limits [from, from+span], span in [%.4f, %.4f] (mod 2*pi)' % (k, bad, hull[2], hull[3]),
+                                  found=repr(bad), expected='from[%d] + [0, span) (mod 2*pi)' % k)
+            elif all_ok:
+                holds += 1
+                if holds % 199 == 1:
+                    ctx.ok('R18.1' if k == 0 else 'R18.3', key, ra.where(0), '%d abstract results on the arc' % len(outs))
+            else:
+                und += 1
+    # quarter-turn points and from == to, slot 0
+    npts = 0
+    for kf in range(-4, 5):
+        for kt in range(-4, 5):
+            f, t_ = kf * math.pi / 2, kt * math.pi / 2
+            key = 'point(from=%d*pi/2,to=%d*pi/2)' % (kf, kt)
+            span = (t_ - f) if f < t_ else (t_ - f) % TWO_PI
+            if span >= TWO_PI - 1e-9:
+                span = 0.0
+            try:
+                I, outs = run_slot(0, (f, f), (t_, t_))
+            except EmptyRange as e:
+                if kf == kt or span > 1e-9:
+                    ctx.violation('R18.2', key, ra.where(0), ra.path, 'limits %g .. %g: %s: the call panics' % (f, t_, e))
+                continue
+            except absint.Undecided:
+                continue
+            except absint.Unsupported as e:
+                raise MachineryError('random_angles could not be interpreted: %s' % e)
+            npts += 1
+            bad = None
+            for o in outs:
+                if isinstance(o.ret, Iv) and kf != kt and span > 1e-9 and not on_arc(o.ret, (f, f), span)[0]:
+                    bad = o.ret
+            ctx.check(bad is None, 'R18.1', key, ra.where(0), ra.path, 'for limits %g .. %g slot 0 can receive a value in %r, off the arc of width %g' % (f, t_, bad, span), found=repr(bad), detail='on the arc')
+    ctx.floor('R18.1 quarter-turn points', npts, 40)
+    from . import C07
+    C07.run(ctx)
+    ctx.evaluations += holds + fails + und
+    ctx.extra['cells'] = {'mode': 'whole function', 'width_deg': w / deg, 'holds': holds, 'definite_failures': fails, 'empty_range_panics': empties, 'undecided': und}
+    total = holds + fails + und + empties
+    ctx.require(nviol > 0 or (total > 0 and holds + fails + empties >= 0.6 * total), 'E4 precision: %d of %d cells decided (floor 60%%)' % (holds + fails + empties, total))
+    ctx.floor('R18.1 decided cells (whole function)', holds + fails + empties, 300)
 
 
 def _definite_path(I, outcome):
